@@ -234,6 +234,10 @@ def scriptH : Handler := fun inp impl => do
   let okText := match impl.getObjVal? "viaText" with
     | .ok d => sameOutcome d impl
     | .error _ => true
+  -- the same commands through the JSON wire format of the custom backend
+  let okJSON := match impl.getObjVal? "viaJSON" with
+    | .ok d => sameOutcome d impl
+    | .error _ => true
   -- the text the harness wrote for the commands is the model writer's text (`Model/C05Lang.lean`)
   let wtexts : List Str := match (match impl.getObjVal? "defs" with | .ok _ => impl | .error _ => inp).getObjValAs? (Array Json) "defs" with
     | .ok a => a.toList.map (fun j => getStrD j "wtext")
@@ -244,8 +248,9 @@ def scriptH : Handler := fun inp impl => do
   let agree := agree && okWriter
   let tag := if !okSpec then tag ++ "/spec-machine" else if !okDup then tag ++ "/add-not-idempotent"
     else if !okCase then tag ++ "/host-case-sensitive" else if !okDerived then tag ++ "/derived-fields"
-    else if !okText then tag ++ "/text-differs-from-commands" else if !okWriter then tag ++ "/writer-differs" else tag
-  return ({ model := m, agree, spec := okSpec && okDup && okCase && okDerived && okText,
+    else if !okText then tag ++ "/text-differs-from-commands" else if !okJSON then tag ++ "/json-differs-from-commands"
+    else if !okWriter then tag ++ "/writer-differs" else tag
+  return ({ model := m, agree, spec := okSpec && okDup && okCase && okDerived && okText && okJSON,
             nontrivial := (res.toOption.map (fun t => !t.isEmpty)).getD false, tag } : Verdict).toJson
 
 /-! ### c05.text -/
@@ -253,8 +258,7 @@ def scriptH : Handler := fun inp impl => do
 def strOfJson (j : Json) (k : String) : Str := getStrD j k
 
 /-- mirror of the harness's `textIn.full`: insert a comment line of `long` bytes before line `longAt` -/
-def fullText (inp : Json) : Str :=
-  let text := strOfJson inp "text"
+def fullTextOf (text : Str) (inp : Json) : Str :=
   let long := ((inp.getObjValAs? Nat "long").toOption.getD 0)
   if long = 0 then text else
   let long := if long > 1048576 then 1048576 else long
@@ -264,11 +268,19 @@ def fullText (inp : Json) : Str :=
   let line : Str := '#' :: List.replicate (long - 1) 'x'
   join ['\n'] (ls.take at_ ++ [line] ++ ls.drop at_)
 
+def fullText (inp : Json) : Str := fullTextOf (strOfJson inp "text") inp
+
+/-- a text the harness rendered from structured definitions travels on the implementation line -/
+def fullTextI (inp impl : Json) : Str :=
+  match impl.getObjValAs? String "text" with
+  | .ok s => fullTextOf s.toList inp
+  | .error _ => fullText inp
+
 def textH : Handler := fun inp impl => do
   let o := oracleOf inp impl
   let env := envOf o
   let pf := pfOf o
-  let text := fullText inp
+  let text := fullTextI inp impl
   -- total over float64 weights: a NaN/±Inf weight is a command the table code refuses (`validWeight`)
   let res := loadTableW env pf text
   let m := loadWJson res
@@ -283,13 +295,22 @@ def textH : Handler := fun inp impl => do
         | .error j => j == parseErrJson e
         | .ok _ => false)
     | .ok xs => specVerdictW env xs it) && okDerived
+  -- … and the commands the harness *wrote* (shipped when the text is a well-formed rendering of definitions), run
+  -- on the spec machine: independent of any parser
+  let okWant ← match impl.getObjVal? "want" with
+    | .ok w => do
+      let xs ← wdefsOf w
+      pure (specVerdictW env xs it)
+    | .error _ => pure true
+  let okSpec := okSpec && okWant
   let tag := match pw with
     | .ok xs => if xs.any (·.bad) then tag ++ "+nonfinite" else tag
     | .error _ => tag
   let tag := if okSpec then tag else
     (match res with
       | .error (.parse (.tooLong _)) => "long-line-swallowed"
-      | _ => if !okDerived then tag ++ "/derived-fields" else tag ++ "/spec-machine")
+      | _ => if !okDerived then tag ++ "/derived-fields" else if !okWant then tag ++ "/not-the-commands-written"
+             else tag ++ "/spec-machine")
   return ({ model := m, agree, spec := okSpec, nontrivial := tag != "empty", tag } : Verdict).toJson
 
 /-! ### c05.line -/
